@@ -1,16 +1,19 @@
-import Osmium.Lemmas.PipelineCompleteA
-import Osmium.Lemmas.PipelineCompleteN
-
-set_option linter.unusedSimpArgs false
-set_option linter.unusedVariables false
+/-
+Shape of what the parser hands to push() of the osmdata queue: `Complete.invO` (the end marker is the
+LAST future handed to push(); it is preceded by an exception or `Parser::run()` returned normally).
+-/
+import Osmium.Lemmas.PipelineShapeOutO3
 
 namespace Osmium.Pipeline
 open Osmium.Mon
 variable {α : Type} [DecidableEq α]
 namespace Complete
 
-theorem invO (c : Cfg α) : ∀ s, (machine c).Reachable s → InvO c s := by
-  sorry
+theorem invO (c : Cfg α) : ∀ s, (machine c).Reachable s → InvO c s := fun s h =>
+  have h1 := invO1 c s h
+  have h2 := invO2 c s h
+  { o_last := h2.o_last, o_fin := h2.o_fin, o_clean := h2.o_clean, o_push := h2.o_push,
+    o_next := h1.o_next, o_futv := h1.o_futv }
 
 end Complete
 end Osmium.Pipeline
